@@ -66,9 +66,15 @@ def gen_case(g, regime):
         s = 0.1 + g.random()
         if g.chance(0.2):
             s *= g.choice([100.0, 1000.0])      # large-amplitude drive: pre-activations in the hundreds and thousands
+        if c["act"] in ("softplus", "softmax", "sigmoid") and g.chance(0.6):
+            # exponential-based activations: pre-activations beyond +-710, where a naive exp() overflows
+            # (the law gives finite states there: softplus(z) ~ z, sigmoid(z) ~ 1, softmax a one-hot)
+            s = g.choice([3e3, 1e4, 1e5])
         c["U_f"] = [[v * s for v in row] for row in c["U_f"]]
     # the type of the input arrays: the law is about their values, not their dtype
     c["udtype"] = g.choice(["float64", "float64", "float64", "int64", "int8", "float32"])
+    if c["udtype"] == "int8" and max(abs(v) for row in c["U_f"] for v in row) > 120:
+        c["udtype"] = "int64"      # (int8 cannot hold the large-amplitude drive: the cast would wrap around)
     if c["udtype"].startswith("int"):
         c["U_f"] = [[float(round(v)) for v in row] for row in c["U_f"]]
     elif c["udtype"] == "float32":
